@@ -8,6 +8,14 @@ NOTES = ("Driver: /verif/verif (python3, stdlib). Every check rebuilds harness/c
          "Known findings: /verif/KNOWN_FINDINGS.txt (read-only at run time). VERIF_SEED selects the rapid seeds; sweeps ignore it.")
 
 CLAIMED = {
+ "C12": dict(
+    technique="property-based testing (rapid), metamorphic: parse, take deep dump and re-encoding, overwrite the input buffer four ways, require dump and re-encoding unchanged",
+    level_text="Frames that Parse accepts - conformant frames of every switch-originated kind from the independent encoder (all payload and action kinds), the library's own encodings of every parseable controller-originated kind, and hostile mutants that still parse - are parsed; after the first re-encoding the deep dump (all fields, unexported included) and the re-encoding must survive overwriting the input with 0xff, zeros, its byte-wise inverse and a generated pattern.",
+    level_note="The deep dump follows every pointer/interface/slice/array, so a retained sub-slice shows as changed content; the stream variant (pool-buffer recycling) is part of C10."),
+ "C13": dict(
+    technique="property-based testing (rapid), history-based: generated sequences of Len / MarshalBinary / encode-through-container / decode on one value, compared for repeatability and for the value's deep dump",
+    level_text="For a generated value of any encodable kind and a history of 2..12 operations {Len, MarshalBinary, size+encode through an enclosing container (instruction, bucket, conntrack, packet-out, flow-mod, group-mod, match, bundle add), decode}: every Len equals the first, every encoding equals the first byte for byte (also when the first operation is an encode without prior size query), the value's deep dump after the last operation equals the one after the first encoding, and repeated decodes agree.",
+    level_note="The first Len/encode may complete derived fields; the value is compared from its state after the first encoding onwards."),
  "C06": dict(
     technique="property-based testing (rapid): one generated value of any encodable kind per case; size oracle and recursive container-embedding oracle (children's stand-alone encodings found intact, in order, zero padding only)",
     level_text="For a generated value of any of the ~125 encodable kinds and everything nested in it: Len() before and after encoding equals the number of bytes produced, and for the 28 container kinds the bytes after the container's header are exactly the stand-alone encodings of its children in order followed by at most 7 zero bytes. DHCP (options) and LLDP (TLVs) are checked through their Read side.",
@@ -73,4 +81,4 @@ for k in CLAIMED:
     ENGINES[0]["serves_properties"].append(k)
 
 NOT_APPLICABLE = {p: "check under construction in this round (design in DESIGN.md section 10); not claimed until it runs clean on the unchanged tree"
-                  for p in ["C10","C11","C12","C13"]}
+                  for p in ["C10","C11"]}
